@@ -336,5 +336,8 @@ func (d Decimal) ToProtoDecimal() *dtpb.Decimal {
 
 // Round rounds a Decimal at the provided precision.
 func (d Decimal) Round(precision int32) Decimal {
+	if -decimal.Decimal(d).Exponent() <= precision {
+		return d // fewer fractional digits than asked for: nothing to round (and no 10^precision to compute)
+	}
 	return Decimal(decimal.Decimal(d).Round(precision))
 }
